@@ -457,7 +457,7 @@ func run(c Case) kit.Result {
 var spec = kit.Spec[Case]{
 	Prop: "C01", Name: "main",
 	Rule:  "config {WriteThrough, NoPrefix, idstore} x op list (<=60, thorough <=120) over a pool of 4-12 honest blocks (few data values x several hash functions, every CID used in all its alias forms, identity CIDs, the empty block); Put/PutMany(0-5, duplicates and aliases in one batch)/Delete/Get/Has/GetSize/View/AllKeysChan against a map[multihash]bytes model; after every mutation all pool CIDs in all forms are read back, AllKeysChan and the raw datastore keys/values are compared; with WriteThrough some puts store different bytes under the same CID (last stored wins). non-trivial = a present block is deleted through another alias than it was put with, or a PutMany mixes aliases/identity CIDs, or an identity CID is used under the idstore",
-	Quick: 2500, Thorough: 12000,
+	Quick: 2500, Thorough: 20000,
 	Gen: gen, Run: run,
 }
 
